@@ -100,8 +100,9 @@ func NewSink(roots ...*TaskNode) (*Sink, error) {
 // all-or-nothing behavior.
 func (s *Sink) Open(ctx context.Context) (err error) {
 	var r rollback.R
+	var rollbackErrs []error
 	defer func() {
-		rollbackErr := r.Execute()
+		rollbackErr := cerrors.Join(r.Execute(), cerrors.Join(rollbackErrs...))
 		err = cerrors.LogOrReplace(err, rollbackErr, func() {})
 	}()
 
@@ -118,7 +119,14 @@ func (s *Sink) Open(ctx context.Context) (err error) {
 			return cerrors.Errorf("task %s failed to open: %w", task.ID(), err)
 		}
 		r.Append(func() error {
-			return task.Close(ctx)
+			// Keep rolling back when one task fails to close: rollback.R stops
+			// at the first error, which would leave every task opened before
+			// this one open for good (a processor then stays marked as running
+			// and the pipeline can never be started again).
+			if closeErr := task.Close(ctx); closeErr != nil {
+				rollbackErrs = append(rollbackErrs, cerrors.Errorf("task %s failed to close: %w", task.ID(), closeErr))
+			}
+			return nil
 		})
 	}
 
